@@ -62,11 +62,11 @@ def _extract_text(src, toks, s_idx, e_idx):
     return src[toks[s_idx].s:toks[e_idx].e], toks[s_idx].s
 
 
-def _common_edits(item_text, unit):
+def _common_edits(item_text, unit, keepvis=False):
     toks = rslex.lex(item_text)
     e1, n = rslex.tracing_edits(toks)
     unit.drops["tracing_invocations_dropped"] += n
-    e2 = rslex.vis_edits(toks)
+    e2 = [] if keepvis else rslex.vis_edits(toks)
     unit.drops["visibility_qualifiers_stripped"] += len(e2)
     e3 = rslex.cfg_feature_edits(toks, OFF_FEATURES, item_text)
     unit.drops["cfg_feature_elements_removed"] += len(e3)
@@ -166,7 +166,7 @@ def build(template_path, repo, out_path, drop_tags=()):
                 text, base = _extract_text(src, toks, st2, en)
             else:
                 text, base = _extract_text(src, toks, st, en)
-            edits = _common_edits(text, unit)
+            edits = _common_edits(text, unit, keepvis=("keepvis" in opts))
             text2 = rslex.apply_edits(text, edits)
             m = re.search(r"attrs=(.*)$", opts)
             if m:
